@@ -312,9 +312,37 @@ func tailDoc(r *rand.Rand) ([]byte, string) {
 	return b, class
 }
 
+// manySpans is one line holding a great many small complete spans, then a span
+// with another one nested inside it, and a few ordinary lines after it: the
+// number of spans on a line has no bearing on how the next one is read.
+func manySpans(r *rand.Rand) []byte {
+	n := []int{10, 200, 1000, 1022, 1023, 1024, 1025, 1500, 2047, 2048, 3000}[r.Intn(11)]
+	small := []string{"*a* ", "_b_ ", "~c~ ", "`d` "}
+	var b []byte
+	if r.Intn(3) == 0 {
+		b = append(b, quotePrefix(r, 1)...)
+	}
+	one := r.Intn(len(small) + 1)
+	for i := 0; i < n; i++ {
+		if one < len(small) {
+			b = append(b, small[one]...)
+		} else {
+			b = append(b, small[r.Intn(len(small))]...)
+		}
+	}
+	b = append(b, pick(r, []string{"*b _c_ d*", "_x *y* z_", "*b _c ~d~ e_ f*", "*p* q", "*b _c_", ""})...)
+	b = append(b, '\n')
+	for i, m := 0, 1+r.Intn(3); i < m; i++ {
+		b = append(b, pick(r, []string{"f *g\n", "> quoted *h*\n", "```\npre *i*\n```\n", "plain\n", "*j* _k_\n"})...)
+	}
+	return b
+}
+
 // genDoc picks a document for one case.
 func genDoc(r *rand.Rand) (doc []byte, class string) {
 	switch x := r.Intn(100); {
+	case x < 2:
+		return manySpans(r), "many-spans"
 	case x < 3:
 		return soup(r, r.Intn(6)), "tiny"
 	case x < 35:
